@@ -13,6 +13,11 @@ import QlibcModel.Tree.ByteCmp
 import QlibcModel.Props.C15Seq
 import QlibcModel.Props.C15Map
 import QlibcModel.Props.C15Harr
+import QlibcModel.Shapes.Tree
+import QlibcModel.Shapes.Hashtbl
+import QlibcModel.Shapes.Listtbl
+import QlibcModel.Shapes.Seq
+import QlibcModel.Shapes.Harr
 
 namespace Qlibc.Props.C15
 open Qlibc Qlibc.Tree Qlibc.Tree.T
